@@ -72,8 +72,9 @@ package vm
 // branch returns before anything else); a freshly evaluated module is cached under its name, so every later
 // importer gets the same module object.
 //@ func (*VirtualMachine).importModule
-//@ props C12 C09 C14
+//@ props C12 C09 C14 C11
 //@ ensures[C14.cache.hit] old(haskey(vm.modules, name)) ==> err == nil && result0 == old(vm.modules[name]) && vm.fp == old(vm.fp) && vm.sp == old(vm.sp) && vm.ip == old(vm.ip)
+//@ ensures[C11.import.disabled] !old(haskey(vm.modules, name)) && old(vm.importer) == nil ==> err != nil && result0 == nil
 //@ ensures[C14.cache.fill] !old(haskey(vm.modules, name)) && err == nil ==> haskey(vm.modules, name) && vm.modules[name] == result0
 //@ requires[C12.ctx] ctx != nil && hasos(ctx)
 //@ requires vm != nil
